@@ -94,11 +94,17 @@ def m_asarray(I, e, args, kws):
     return out
 
 
-def _dtype_cast(I, e, out, x, dt):
-    """x is cast to a dtype that is derived from ANOTHER value (np.result_type(a, b), y.dtype): possible truncation"""
+def _dtype_cast(I, e, out, x, dt, computed=False):
+    """x is cast to a dtype that is derived from ANOTHER value (np.result_type(a, b), y.dtype): possible truncation.
+    computed=True: the value is a freshly computed real-valued grid (linspace): ANY dtype taken from input arrays may be integer"""
     if dt is None:
         return
     f = dt.flat()
+    if computed and dt.tag("dtype_of") and not dt.known:
+        srcs = frozenset(f.data | f.shp)
+        out.tags["dtype_from"] = srcs
+        I.emit("dtype_cast", e, value=x, dtype_src=srcs, computed=True)
+        return
     src = (f.data | f.shp) - {o for o in (x.flat().data | x.flat().shp)}
     if src and not dt.tag("exttype") and not (dt.known):
         out.tags["dtype_from"] = frozenset(src)
@@ -245,6 +251,7 @@ def m_arange(I, e, args, kws):
         out.tags["index_range"] = True
     else:
         out.shape = Shape([None])
+    out.tags["arange"] = True
     return out
 
 
@@ -259,9 +266,13 @@ def m_linspace(I, e, args, kws):
         u = None
     out.unit = u
     out.shape = Shape([as_dim(n) if n is not None else None])
+    ep = kws.get("endpoint")
+    out.tags["linspace"] = "open" if (ep is not None and ep.known and ep.const is False) else ("closed" if ep is None or ep.known else None)
+    out.tags["grid_ends"] = (a, b)
+    I.emit("linspace", e, start=a, stop=b, num=n, result=out)
     dt = kws.get("dtype")
     if dt is not None and not (dt.known and dt.const is None):
-        _dtype_cast(I, e, out, Val(data=a.flat().data | b.flat().data), dt)
+        _dtype_cast(I, e, out, Val(data=a.flat().data | b.flat().data), dt, computed=True)
     rs = kws.get("retstep")
     if rs is not None and rs.known and rs.const:
         step = mk(args + list(kws.values()), unit=u, shape=S())
@@ -312,7 +323,7 @@ def m_astype(I, e, args, kws):
     _dtype_cast(I, e, out, x, dt)
     if dt is not None and (dt.tag("builtin") == "int" or dt.tag("exttype") in ("numpy.int64", "numpy.int32", "numpy.intp") or (dt.known and dt.const in ("int", "int64", "i8"))) and x.tag("sum_dim") is None and not x.tag("indices") and x.tag("kind") == "ndarray" \
             and not x.tag("boolarr"):
-        out.tags["rounded"] = True             # truncation of a real-valued array: sums are not preserved
+        out.tags["rounded"] = "trunc"          # truncation of a real-valued array: sums are not preserved
     return out
 
 
@@ -507,7 +518,7 @@ def m_transc(I, e, args, kws):
         u = args[0].unit
     out = _elementwise(I, e, args, unit=u)
     if name in ("floor", "ceil"):
-        out.tags["rounded"] = True
+        out.tags["rounded"] = name
     if name == "exp":
         out.sign = "POS"
     return out
@@ -517,7 +528,8 @@ def m_transc(I, e, args, kws):
 def m_round(I, e, args, kws):
     x = args[0]
     out = _elementwise(I, e, [x], unit=x.unit, sign=x.sign, frame=x.frame)
-    out.tags["rounded"] = True
+    nm = M.norm_text(e.func).split(".")[-1]
+    out.tags["rounded"] = "nearest" if nm in ("round", "around", "round_", "rint") else "trunc"
     out.tags.pop("sum_dim", None)
     return out
 
@@ -776,6 +788,9 @@ def m_diff(I, e, args, kws):
 def m_sort(I, e, args, kws):
     x = args[0]
     out = mk(args + list(kws.values()), fresh="FRESH", unit=x.unit, frame=x.frame, sign=x.sign, tags={"kind": "ndarray"})
+    out.tags["sorted"] = True
+    if x.tag("point"):
+        out.tags["point"] = True
     if "sort" in M.norm_text(e.func):
         out.shape = x.shape
     elif x.shape is not None and x.shape.axes and not x.shape.ell:
